@@ -13,9 +13,9 @@ RULE = ("tensors of rank 1-4 (shapes 2-3 per axis, every index-type pattern, 0-2
         "tensor/point/line/quadric x tensor/array/python and numpy scalars, left and right, operators and numpy ufuncs; transpose / T / "
         "tensor_product / expand_dims / copy. Also every __getitem__ and arithmetic call made by the repository's tests. "
         "Non-trivial = an index expression other than a single integer or an operand pairing with a non-scalar; distinct by digest."
-        " Arithmetic results must have numpy's result dtype, a buffer of their own and must leave the operands' bytes unchanged; the neutral scalars 1, 1.0, np.int64(1), 1+0j, 0, -1, True are part of the operand pairings; tensors whose free axis is not the leading one (results of indexing with None / an integer array after a tensor axis) are operands too; T and transpose() are read on every kind of library object; -p, np.negative(p) and (p-p)-p on points must be p*(-1) (directions reversed); leading scalar boolean indices (Python bool, numpy.bool_).")
+        " Arithmetic results must have numpy's result dtype, a buffer of their own and must leave the operands' bytes unchanged; the neutral scalars 1, 1.0, np.int64(1), 1+0j, 0, -1, True are part of the operand pairings; tensors whose free axis is not the leading one (results of indexing with None / an integer array after a tensor axis) are operands too; T and transpose() are read on every kind of library object; -p, np.negative(p) and (p-p)-p on points must be p*(-1) (directions reversed); leading scalar boolean indices (Python bool, numpy.bool_); copy.copy / copy.deepcopy / pickle round trips / .copy() of every kind of object (tensors, collections, dual quadrics, circles, spheres, segments, triangles, cuboids): class, bytes, index types, duality and vertices preserved, deep copies own their buffer.")
 SHARDS = (8, 16)
-REQUIRED = ["getitem", "arith", "point_arith", "ufunc", "transpose", "expand_dims", "copy", "arith.operands"]
+REQUIRED = ["getitem", "arith", "point_arith", "ufunc", "transpose", "expand_dims", "copy", "arith.operands", "copy.roundtrip"]
 ASSUMPTIONS = ["numpy indexing/ufunc semantics are the reference", "the structural index model is validated per case against numpy's result shape"]
 EXHAUSTIVE = {"quick": [], "thorough": []}
 
@@ -720,9 +720,81 @@ def g_transpose(ctx, rng, i):
                 pass
 
 
+def _rand_object(rng, i):
+    """every kind of library object that is a Tensor, polytopes and named quadrics included."""
+    import geometer as g
+
+    k = i % 13
+    if k < 8:
+        return _rand_tensor(rng, k)
+    if k == 8:
+        c = g.Circle(g.Point(*gen.coords(rng, (2,), 5, "int").tolist()), int(rng.integers(1, 6)))
+        return c.dual if i % 2 else c
+    if k == 9:
+        return g.Sphere(g.Point(*gen.coords(rng, (3,), 5, "int").tolist()), int(rng.integers(1, 6)))
+    v = gen.coords(rng, (3, 3), 7, "int")
+    v[:, -1] = 1
+    if k == 10:
+        return g.Segment(g.Point(v[0]), g.Point(v[1] + np.array([9, 0, 0])))
+    if k == 11:
+        v[1, 0] += 11
+        v[2, 1] += 13
+        return g.Triangle(*[g.Point(x) for x in v])
+    a = g.Point(*gen.coords(rng, (3,), 4, "int").tolist())
+    return g.Cuboid(a, a + g.Point(2, 0, 0), a + g.Point(0, 3, 0), a + g.Point(0, 0, 5))
+
+
+def g_copies(ctx, rng, i):
+    """copy.copy / copy.deepcopy / pickle round trip / .copy(): same class, same array, same index types, same attributes; deep copies own
+    their data (an in-place edit of the copy leaves the original's bytes alone) and keep answering like the original."""
+    import copy as _copy
+    import pickle
+
+    o = _rand_object(rng, i)
+    if i % 3 == 0 and hasattr(o, "vertices"):
+        o.vertices  # a history: cached attributes must not make the copies differ
+    raw = o.array.tobytes()
+    routes = (("copy.copy", _copy.copy, False), ("copy.deepcopy", _copy.deepcopy, True), ("pickle", lambda x: pickle.loads(pickle.dumps(x)), True),
+              (".copy()", lambda x: x.copy(), False))
+    for name, f, deep in routes:
+        feat = {"route": name, "cls": type(o).__name__}
+        try:
+            r = f(o)
+        except Exception as e:
+            ctx.judge("copy.roundtrip", False, [o], what=f"{name} of a {type(o).__name__} raised {type(e).__name__}: {e}", op=name, feat=feat)
+            continue
+        ok = type(r) is type(o) and r is not o and r.array.dtype == o.array.dtype and r.array.shape == o.array.shape and r.array.tobytes() == raw
+        ok = ok and _types_of(r) == _types_of(o) and getattr(r, "is_dual", None) == getattr(o, "is_dual", None)
+        ok = ok and r.shape == o.shape and r.rank == o.rank and r.free_indices == o.free_indices
+        what = f"{name} of a {type(o).__name__} differs from the original in class, array, index types or duality"
+        if ok and deep:
+            ok = not np.shares_memory(r.array, o.array)
+            what = f"{name} of a {type(o).__name__} shares its coordinate buffer with the original"
+            if ok and r.array.flags.writeable and r.array.size:
+                r.array.flat[0] += 1
+                ok = o.array.tobytes() == raw
+                r.array.flat[0] -= 1
+                what = f"editing the {name} of a {type(o).__name__} in place changed the original"
+        if ok and hasattr(o, "vertices"):
+            # the copy keeps answering like the original (vertices / edges are rebuilt or carried, never lost)
+            try:
+                va, vb = r.vertices, o.vertices
+                if isinstance(vb, list):
+                    ok = isinstance(va, list) and len(va) == len(vb) and all(type(x) is type(y) and np.array_equal(x.array, y.array) for x, y in zip(va, vb))
+                else:
+                    ok = type(va) is type(vb) and np.array_equal(va.array, vb.array)
+            except Exception as e:
+                ok = False
+                feat = dict(feat, exc=type(e).__name__)
+            what = f"the {name} of a {type(o).__name__} has other vertices than the original"
+        ctx.judge("copy.roundtrip", bool(ok), [o], what=what, op=name, feat=feat, nontrivial=True)
+    if o.array.tobytes() != raw:
+        ctx.judge("copy.roundtrip", False, [o], what=f"copying a {type(o).__name__} changed its coordinate bytes", op="copy", feat={"cls": type(o).__name__})
+
+
 _tolerant = core.tolerant
 
-g_getitem, g_getitem_structured, g_arith, g_point_arith, g_transpose = (_tolerant(f) for f in (g_getitem, g_getitem_structured, g_arith, g_point_arith, g_transpose))
+g_getitem, g_getitem_structured, g_arith, g_point_arith, g_transpose, g_copies = (_tolerant(f) for f in (g_getitem, g_getitem_structured, g_arith, g_point_arith, g_transpose, g_copies))
 
 GROUPS = [
     {"name": "getitem", "fn": g_getitem, "quick": 6000, "thorough": 80000},
@@ -730,6 +802,7 @@ GROUPS = [
     {"name": "arith", "fn": g_arith, "quick": 1280, "thorough": 12800},
     {"name": "point_arith", "fn": g_point_arith, "quick": 800, "thorough": 8000},
     {"name": "transpose", "fn": g_transpose, "quick": 600, "thorough": 6000},
+    {"name": "copies", "fn": g_copies, "quick": 390, "thorough": 3900},
 ]
 
 
